@@ -87,7 +87,7 @@ def run_tlc(spec, cfg, meta, extra=(), env=None, timeout=1800, workers=1, java_o
         e.update(env)
     if java_opts:
         e["JAVA_TOOL_OPTIONS"] = java_opts
-    cmd = ["tlc", "-workers", str(workers), "-metadir", meta, "-config", cfg] + list(extra) + [spec]
+    cmd = ["tlc", "-workers", str(workers), "-metadir", meta, "-noGenerateSpecTE", "-config", cfg] + list(extra) + [spec]
     try:
         rc, out = sh(cmd, timeout=timeout, env=e, cwd=SPEC)
     except subprocess.TimeoutExpired:
